@@ -18,6 +18,8 @@ from .common import Check, bits_to_float, lean_stage, rel_close, run_driver
 from .c11 import fbits
 
 LAMBDAS = [0.01, 0.39, 2.0, 10.0, 100.0]
+# boxes measured in a unit so small that every length lies below numpy's ABSOLUTE tolerances (1e-8), in sequence, same shape
+TINY_LAMBDAS = [1e-9, 2e-9, 3e-9]
 
 
 def stretch(grid, lam):
@@ -187,7 +189,7 @@ def run_cases(ck: Check, n: int):
                     ck.count("droplet_detection.overlap_filter_decides_count")
                 ck.count("droplet_detection.ill_defined_components" if illdef else "droplet_detection.clean_components")
             # stretching the grid
-            for lam in LAMBDAS:
+            for lam in LAMBDAS + TINY_LAMBDAS:
                 v = length(ScalarField(stretch(grid, lam), data), method, **kw)
                 if isinstance(v, str) or not math.isfinite(v):
                     ck.fail(f"{method}: grid stretched by {lam}: {v} (unstretched {base})", {**sig, "check": "covariant", "lambda": lam}, {**case, "method": method, "lambda": lam})
@@ -204,6 +206,19 @@ def run_cases(ck: Check, n: int):
                 ok = (not isinstance(v, str)) and (rel_close(v, base, 1e-8) if exact else abs(2 * np.pi / v - 2 * np.pi / base) <= 1.0 * dk)
                 if not ok:
                     ck.fail(f"{method}: field multiplied by {c}: length {v} instead of {base}", {**sig, "check": "field_scale"}, {**case, "method": method, "c": c})
+            if method == "droplet_detection":
+                # ... and under every threshold rule: exact binary scalings (2**k: every bin edge and class statistic scales exactly), down to
+                # amplitudes far below numpy's absolute tolerances
+                for rule in ("otsu", "mean", "extrema"):
+                    b2 = length(field, method, threshold=rule)
+                    if isinstance(b2, str) or not math.isfinite(b2):
+                        continue
+                    for c in (2.0**-30, 2.0**-40, 2.0**20):
+                        v = length(ScalarField(grid, c * data), method, threshold=rule)
+                        ck.count("droplet_detection.rule_x_binary_scaling")
+                        if isinstance(v, str) or not rel_close(v, b2, 1e-8):
+                            ck.fail(f"{method} with threshold='{rule}': field multiplied by 2**{int(round(math.log2(c)))}: length {v} instead of {b2}",
+                                    {**sig, "check": "field_scale", "threshold": rule}, {**case, "method": method, "c": c, "threshold": rule})
             shifts = [tuple(rng.randrange(s) for s in grid.shape)]
             if method == "droplet_detection":
                 # the count may only change when a component is cut differently by the periodic boundary: try cuts through every part
@@ -295,6 +310,60 @@ def mixed_periodicity(ck: Check, n: int):
                 break
 
 
+def monitored_peak(ck, field, case, k_true):
+    """the peak method on a plane wave with the hypotheses of Props/C17 `peak_plane_wave_within_reach` monitored on the real run:
+    the smoother is the Gaussian kernel regression `nwSmooth` (SmoothData1D is dependency code), the raw samples at the peak level are the
+    shell |k| = k_true and the prepended zero mode, and the optimiser returns a point that is not worse than the centre of its bracket"""
+    import droplets.image_analysis as ia
+    from scipy import optimize
+
+    rec = {}
+    o_cls, o_min = ia.SmoothData1D, optimize.minimize_scalar
+
+    class Tap(o_cls):
+        def __init__(self, x, y, sigma=None):
+            super().__init__(x, y, sigma=sigma)
+            rec["smoother"] = self
+
+    def t_min(fun, *a, **k):
+        r = o_min(fun, *a, **k)
+        rec.setdefault("brackets", []).append(k.get("bracket"))
+        rec["x"] = float(r.x)
+        return r
+
+    ia.SmoothData1D, optimize.minimize_scalar = Tap, t_min
+    try:
+        s = length(field, "structure_factor_maximum")
+    finally:
+        ia.SmoothData1D, optimize.minimize_scalar = o_cls, o_min
+    sm = rec.get("smoother")
+    if sm is None or "x" not in rec or isinstance(s, str):
+        return s
+    kk, ss, sig, x = np.asarray(sm.x, float), np.asarray(sm.y, float), float(sm.sigma), rec["x"]
+    s0 = float(np.max(ss[1:]))
+    # (a) the smoother is nwSmooth with the Gaussian kernel (independent evaluation, incl. the 'all weights vanish' branch)
+    for q in (x, k_true, k_true + 0.5 * sig, k_true + 60 * sig, 0.5 * (kk[0] + k_true)):
+        w = np.exp(-(0.5 * sig**-2) * (kk - q) ** 2)
+        want = float(ss @ w / w.sum()) if w.sum() > 0 else 0.0
+        got = float(sm(q))
+        if abs(got - want) > 1e-9 * max(1e-300, abs(want)) and abs(got - want) > 1e-15:
+            ck.mismatch("c17-smoother", f"SmoothData1D({q}) = {got}, Gaussian kernel regression gives {want}", case)
+            break
+    # (b) samples at the peak level: the shell of the plane wave, and the zero mode
+    high = kk[ss >= s0 * (1 - 1e-9)]
+    if not all(abs(v - k_true) <= 1e-9 * k_true or v == 0 for v in high):
+        ck.mismatch("c17-peak-hypotheses", f"raw samples at the peak level {s0} lie at {sorted(set(high.tolist()))[:5]}, expected the shell {k_true} (and the zero mode)", case)
+    # (c) the optimiser's answer is not worse than the centre of its bracket, and it is away from zero by more than the reach 38.6 sigma
+    br = rec["brackets"][-1]
+    if not (float(sm(x)) >= float(sm(br[1])) * (1 - 1e-12) and x >= 38.6 * sig):
+        ck.mismatch("c17-peak-hypotheses", f"minimize_scalar returned x={x} with S(x)={float(sm(x))} < S(centre of the bracket {br[1]})={float(sm(br[1]))}", case)
+    elif abs(x - k_true) >= 38.6 * sig:
+        # conclusion of the theorem (the property's own, weaker bound of half a bin is evaluated by the caller)
+        ck.mismatch("c17-peak-theorem", f"peak at x={x}: further than the kernel's reach 38.6 sigma = {38.6 * sig} from the true wave number {k_true}", case)
+    ck.count("peak_hypotheses_monitored")
+    return s
+
+
 def plane_waves(ck: Check, quick: bool):
     """a plane wave fitting the box, >= 4 cells per period: finite, within half a Fourier bin, any spacing"""
     from pde import CartesianGrid, ScalarField
@@ -313,14 +382,27 @@ def plane_waves(ck: Check, quick: bool):
                     x = grid.cell_coords[..., ax]
                     amp, off, ph = rng.uniform(0.05, 2), rng.choice([0.0, 0.3, -1.0]), rng.uniform(0, 6)
                     f = ScalarField(grid, off + amp * np.sin(2 * np.pi * m * x / L + ph))
-                    s = length(f, "structure_factor_maximum")
                     k_true, dk = 2 * np.pi * m / L, 2 * np.pi / L
                     case = {"kind": "plane-wave", "dim": dim, "N": N, "m": m, "dx": dx, "axis": ax, "amplitude": amp, "offset": off, "phase": ph}
+                    s = monitored_peak(ck, f, case, k_true)
                     ck.case(("pw", dim, N, m, dx))
                     ck.count("plane_waves")
                     if isinstance(s, str) or not math.isfinite(s) or abs(2 * np.pi / s - k_true) > 0.5 * dk:
                         ck.fail(f"plane wave (dim {dim}, {N} cells, mode {m}, spacing {dx}): peak method returns {s}; true length {L / m}",
                                 {"method": "structure_factor_maximum", "check": "peak_plane_wave", "dim": dim}, case)
+                    # Props/C16 plane_wave_support + Props/C17 mean_length_single_shell: the RAW spectrum of a plane wave is carried by the shell
+                    # |k| = k_true, and the moment formula applied to it is exactly the wavelength.  (get_length_scale itself applies the
+                    # formula to the SMOOTHED spectrum - default smoothing 'auto' -, for which neither holds nor is claimed by the property.)
+                    if dx == spacings[0] or dim == 1:
+                        from droplets.image_analysis import get_structure_factor
+
+                        kk, ss = get_structure_factor(f, smoothing=None)
+                        off_shell = float(np.max(np.where(np.abs(kk - k_true) > 1e-9 * k_true, ss, 0.0)))
+                        lam = 2 * np.pi * float(np.sum(ss)) / float(np.sum(kk * ss))
+                        ck.count("plane_wave_raw_spectrum")
+                        if off_shell > 1e-20 + 1e-12 * float(np.max(ss)) or abs(lam - L / m) > 1e-9 * L / m:
+                            ck.mismatch("c17-planewave-raw", f"plane wave (dim {dim}, {N} cells, mode {m}, spacing {dx}): raw spectrum off the shell up to {off_shell:.3g} "
+                                        f"(peak {float(np.max(ss)):.3g}); moment formula on the raw spectrum {lam} vs wavelength {L / m}", case)
 
 
 def replay(case: dict):
